@@ -5,9 +5,10 @@ import BadgerProofs.Props.C12Choice
 over the HISTORY of commits
 
 `Reach nlev hist dmax nowmax s`: `s` is reached from `Lsm.init nlev` by a finite sequence of
-* commits: `memPut` of an entry whose version is `≥` every version committed so far and `>` every
-  committed version of its own key (a batch commit at a fresh timestamp is a sequence of such
-  steps with pairwise distinct keys, `C01_reach_commit`),
+* commits: `memPut` of an entry whose version is `>` every committed version of its own key (no
+  order is required across different keys, so managed-mode histories with caller-chosen,
+  globally non-monotone commit timestamps are covered; a batch commit at one fresh timestamp is a
+  sequence of such steps with pairwise distinct keys, `C01_reach_commit`),
 * memtable flushes,
 * compactions the production pickers can choose (`validChoice`, checked at run time against the
   implementation) whose output tables are cut only where the user key changes;
@@ -19,7 +20,7 @@ namespace Badger
 inductive Reach (nlev : Nat) : List Ent → Nat → Nat → Lsm → Prop
   | init : Reach nlev [] 0 0 (Lsm.init nlev)
   | put {hist : List Ent} {dm nm : Nat} {s : Lsm} (r : Reach nlev hist dm nm s) (e : Ent)
-      (hpos : 0 < e.ver) (hmax : e.ver ≤ maxU64) (hge : ∀ x ∈ hist, x.ver ≤ e.ver)
+      (hpos : 0 < e.ver) (hmax : e.ver ≤ maxU64)
       (hfresh : ∀ x ∈ hist, x.key = e.key → x.ver < e.ver) : Reach nlev (e :: hist) dm nm (s.putEnt e)
   | flush {hist : List Ent} {dm nm : Nat} {s : Lsm} (r : Reach nlev hist dm nm s) (id : Nat) :
       Reach nlev hist dm nm (s.flush id)
@@ -77,10 +78,10 @@ theorem C01_reach_inv {nlev : Nat} {hist : List Ent} {dm nm : Nat} {s : Lsm} (r 
     ReachInv hist s := by
   induction r with
   | init => exact ⟨LL.init_good nlev, C14_l0sf_init nlev, fun e he => absurd he (LL.init_no_entries nlev e)⟩
-  | put _ e hpos hmax hge hfresh ih =>
+  | put _ e hpos hmax hfresh ih =>
     obtain ⟨⟨h, hv, hl, hu, himm⟩, hsf, hsub⟩ := ih
     refine ⟨⟨LL.put_inv h hpos, LL.put_verBound hv hmax,
-      LL.put_layeredX hl (fun x hx _ => hge x (hsub x hx)),
+      LL.put_layeredX hl (fun x hx hk => Nat.le_of_lt (hfresh x (hsub x hx) hk)),
       LL.put_keyVerUnique hu (fun x hx hk => hfresh x (hsub x hx) hk), himm⟩, C14_l0sf_put hsf e, ?_⟩
     intro x hx
     rcases LL.mem_allEntries_put hx with rfl | hx'
@@ -124,7 +125,7 @@ theorem C01_reach_reads {nlev : Nat} {hist : List Ent} {dm nm : Nat} {s : Lsm} (
     have : newestLE (Lsm.init nlev).allEntries k ts = none :=
       LL.newestLE_eq_none.mpr (fun x hx => absurd hx (LL.init_no_entries nlev x))
     rw [this]; rfl
-  | @put hist dm nm s r e hpos hmax hge hfresh ih =>
+  | @put hist dm nm s r e hpos hmax hfresh ih =>
     obtain ⟨⟨h, _⟩, _, hsub⟩ := C01_reach_inv r
     rw [LL.put_get h hpos, LL.newestLE_cons, LL.newestLE_cons, ← C01_get_spec h]
     by_cases hc : e.key = k ∧ e.ver ≤ ts
@@ -162,7 +163,7 @@ theorem C01_reach_hist_unique {nlev : Nat} {hist : List Ent} {dm nm : Nat} {s : 
     (r : Reach nlev hist dm nm s) : LL.KVFun hist := by
   induction r with
   | init => intro x hx; simp at hx
-  | put _ e _ _ _ hfresh ih =>
+  | put _ e _ _ hfresh ih =>
     intro x hx y hy hk hv
     rcases List.mem_cons.mp hx with rfl | hx' <;> rcases List.mem_cons.mp hy with rfl | hy'
     · rfl
@@ -184,7 +185,7 @@ theorem C01_reach_commit_aux {nlev : Nat} {hist : List Ent} {dm nm : Nat} {s : L
     obtain ⟨hk1, hk2⟩ := List.pairwise_cons.mp hkeys
     have hev : e.ver = v := hv e (by simp)
     have r1 : Reach nlev (e :: hist) dm nm (s.putEnt e) :=
-      Reach.put r e (by omega) (by omega) (fun x hx => by have := hge x hx; omega)
+      Reach.put r e (by omega) (by omega)
         (fun x hx hk => by have := hfresh x hx e (by simp) hk; omega)
     simp only [List.foldl_cons, List.reverse_cons, List.append_assoc, List.singleton_append]
     apply ih r1 (fun e' he' => hv e' (List.mem_cons_of_mem _ he'))
@@ -265,7 +266,7 @@ def C01_reachS3 : Lsm := { mem := [], imm := [], levels := [[], [{ ents := [C01_
 example : Reach 2 [C01_reachE] 0 0 C01_reachS3 ∧
     visible 0 (C01_reachS3.get [1] 4) = visible 0 (newestLE [C01_reachE] [1] 4) := by
   have r1 : Reach 2 [C01_reachE] 0 0 ((Lsm.init 2).putEnt C01_reachE) :=
-    Reach.put Reach.init C01_reachE (by decide) (by decide) (by simp) (by simp)
+    Reach.put Reach.init C01_reachE (by decide) (by decide) (by simp)
   have r2 : Reach 2 [C01_reachE] 0 0 C01_reachS2 := Reach.flush r1 5
   have hsplit : splitSizes C01_reachCd.outSizes (compactOutput C01_reachS2 C01_reachCd 0 1 0).1 =
       some [{ ents := [C01_reachE] }] := by
